@@ -5,7 +5,7 @@ modes: c01 (enumeration), c02 (string denotes tree), c03 (library soundness), c1
 """
 import os, sys, re, json, time, hashlib, collections
 import numpy as np
-from hcommon import io_main, quiet
+from hcommon import io_main, quiet, short_err
 import stages, oracle
 import mpmath as mp
 
@@ -83,7 +83,7 @@ def c01(p):
         if job.get("regenerate"):
             r = stages.generate(runname, n, P=1, basis=basis)
             ss, errs = stages.statuses(r)
-            err = None if all(s_ == "ok" for s_ in ss) else "second generation into the same directory did not complete: %s" % (errs or ["timeout"])[0][-500:]
+            err = None if all(s_ == "ok" for s_ in ss) else "second generation into the same directory did not complete: %s" % short_err((errs or ["timeout"])[0], 500)
         else:
             err = ensure_lib(runname, n, basis)
         cases += 1
@@ -356,7 +356,7 @@ def c13(p):
             cases += 1
             if any(s != "ok" for s in ss):
                 fails.append({"job": job, "P": P, "error": "generation with %d ranks did not terminate on ranks %s: %s" % (
-                    P, [i for i, s in enumerate(ss) if s != "ok"][:8], (errs or ["hang/timeout"])[0][-500:])})
+                    P, [i for i, s in enumerate(ss) if s != "ok"][:8], short_err((errs or ["hang/timeout"])[0], 500))})
                 continue
             h = file_hashes(runname, n)
             if ref is None:
@@ -421,7 +421,7 @@ def c13cr(p):
             cases += 1
             if any(s_ != "ok" for s_ in ss):
                 fails.append({"job": job, "P": P, "error": "check_results on %d ranks did not complete on ranks %s: %s" % (
-                    P, [i for i, s_ in enumerate(ss) if s_ != "ok"][:6], ([x["error"] for x in r if x["error"]] or ["hang"])[0][-400:])})
+                    P, [i for i, s_ in enumerate(ss) if s_ != "ok"][:6], short_err(([x["error"] for x in r if x["error"]] or ["hang"])[0]))})
                 continue
             c1, d1, f1 = library_predicate(runname, n, basis, None, 0)
             if wrong:
